@@ -1,7 +1,7 @@
-CONSTANT Instance = "starkvar"
+CONSTANT Instance = "vararith"
 CONSTANT Disabled = {}
 CONSTANT Mutant = "nopad_prover"
 INIT Init
 NEXT Next
-INVARIANT Agree
+INVARIANT VarOK
 CHECK_DEADLOCK FALSE
